@@ -82,6 +82,8 @@ fn main() {
                 "reopen_small" => dbops.push(api::DbOp::ReopenSmallFiles(t[2].parse().unwrap())),
                 // damage_manifest <bytes before the end> <xor mask>
                 "damage_manifest" => dbops.push(api::DbOp::DamageManifest(t[2].parse().unwrap(), t[3].parse().unwrap())),
+                // damage_table <num> <den> <xor mask>: the byte at len * num / den of the newest table file
+                "damage_table" => dbops.push(api::DbOp::DamageTable(t[2].parse().unwrap(), t[3].parse().unwrap(), t[4].parse().unwrap())),
                 _ => panic!("bad db op"),
             },
             "entry" => entries.push((unhex(t[1]), t[2].parse().unwrap(), t[3].parse().unwrap(), unhex(t[4]))),
@@ -136,6 +138,47 @@ fn main() {
             } else {
                 println!("REPLAY violated oracle=key_range {}", bad.join("; "));
             }
+        }
+        // C15: reads over a damaged table file.  A lookup must answer correctly or fail; a scan must
+        // show the visible pairs or fail.  The kind of disagreement is reported: `scan-ends-early-
+        // without-error` (entries are missing from a scan whose every shown pair is right, and no
+        // error was visible) is finding F13; everything else is `wrong-result`.
+        "scan_damage" => {
+            let mut model: std::collections::BTreeMap<Vec<u8>, Option<Vec<u8>>> = Default::default();
+            for op in &dbops {
+                match op {
+                    api::DbOp::Put(k, v) => { model.insert(k.clone(), Some(v.clone())); }
+                    api::DbOp::Delete(k) => { model.insert(k.clone(), None); }
+                    api::DbOp::Batch(ops) => { for (k, v) in ops { model.insert(k.clone(), v.clone()); } }
+                    _ => {}
+                }
+            }
+            let keys: Vec<Vec<u8>> = model.keys().cloned().collect();
+            let o = api::run_damage(&dbops, &keys);
+            if let Some(e) = &o.open_error { println!("REPLAY holds oracle=scan_damage open refused the damaged table: {}", e.replace('\n', " ")); return; }
+            let vis: Vec<(Vec<u8>, Vec<u8>)> = model.iter().filter_map(|(k, v)| v.as_ref().map(|v| (k.clone(), v.clone()))).collect();
+            let mut wrong = vec![];
+            let mut early = vec![];
+            for (k, a) in keys.iter().zip(o.gets.iter()) {
+                if a.starts_with("error:") { continue; }
+                let e = match model.get(k) { Some(Some(val)) => format!("value:{}", hx(val)), _ => "notfound".to_string() };
+                if *a != e { wrong.push(format!("get({}) returned {} expected {}", hex(k), a, e)); }
+            }
+            let mut judge = |name: &str, scan: &Vec<(Vec<u8>, Vec<u8>)>, err: &Option<String>, expected: &Vec<(Vec<u8>, Vec<u8>)>| {
+                if err.is_some() || scan == expected { return; }
+                // every pair shown is a pair of the model, in order: only entries are missing
+                let mut pos = 0usize;
+                let mut subseq = true;
+                for e in scan { match expected[pos..].iter().position(|x| x == e) { Some(d) => pos += d + 1, None => { subseq = false; break; } } }
+                if subseq { early.push(format!("{} scan showed {} of {} pairs (last {}) and no error", name, scan.len(), expected.len(), scan.last().map(|x| hex(&x.0)).unwrap_or("-".to_string()))); }
+                else { wrong.push(format!("{} scan shows a pair that was never written or is out of order", name)); }
+            };
+            let mut rev = vis.clone(); rev.reverse();
+            judge("forward", &o.forward, &o.forward_error, &vis);
+            judge("backward", &o.backward, &o.backward_error, &rev);
+            if !wrong.is_empty() { println!("REPLAY violated oracle=scan_damage kind=wrong-result {}", wrong.join("; ")); }
+            else if !early.is_empty() { println!("REPLAY violated oracle=scan_damage kind=scan-ends-early-without-error {}", early.join("; ")); }
+            else { println!("REPLAY holds oracle=scan_damage gets={} errors={}", o.gets.len(), o.gets.iter().filter(|g| g.starts_with("error:")).count()); }
         }
         // a single-client history on the real DB vs a map model (C01)
         "db_history" => {
